@@ -7,6 +7,7 @@ import (
 	"go/token"
 	"go/types"
 	"math/big"
+	"os"
 	"strings"
 
 	"golang.org/x/tools/go/ssa"
@@ -369,6 +370,13 @@ func (x *Exec) applyContract(fr *Frame, st *State, c *Contract, key string, recv
 	for _, cl := range c.ByKind("modifies") {
 		for _, me := range cl.Exprs {
 			me := me
+			if me.Op == "ident" {
+				if gt, isGhost := x.ghostDecl[me.Name]; isGhost {
+					st.ghost[me.Name] = x.symbolic(st, gt, "ghost."+me.Name+"@"+shortKey(key), false, 0)
+					x.ghostBound(st, me.Name)
+					continue
+				}
+			}
 			if err := x.guard(fmt.Sprintf("%s:%d modifies", cl.File, cl.Line), func() {
 				x.havocLoc(st, ecMod.Eval(me), key)
 			}); err != nil {
@@ -401,7 +409,7 @@ func (x *Exec) applyAliases(fr *Frame, st, pre *State, c *Contract, aliases []*C
 			return
 		}
 		// results are shared values: copy them for the aliased branch
-		if !cond.IsFalse() {
+		if !cond.IsFalse() && x.feasible(st, cond) {
 			st2 := st.Clone()
 			res2 := cloneResults(results)
 			st2.Assume(cond)
@@ -934,6 +942,12 @@ func (x *Exec) builtin(fr *Frame, st *State, b *ssa.Builtin, cc *ssa.CallCommon,
 		k(st, n)
 	case "append":
 		x.appendModel(fr, st, cc, args, pos, k)
+	case "ssa:wrapnilchk":
+		// wrapper methods: panics if the receiver pointer is nil, otherwise returns it
+		if pv, ok := args[0].(*PtrV); ok {
+			x.safety(st, fr, "nilrecv("+x.srcText(pos)+")", tb.Not(pv.IsNil), pos)
+		}
+		k(st, args[0])
 	case "recover":
 		k(st, &IfaceV{Tag: tb.Intc(0), Id: tb.Intc(0)})
 	case "print", "println":
@@ -1239,4 +1253,52 @@ func (x *Exec) strChar(s *Term, k *Term) *Term {
 	}
 	f := x.tb.DeclareFun("strchar", []Sort{SInt, BV(64)}, BV(32))
 	return x.tb.App(f, s, k)
+}
+
+// feasible: cheap solver check whether cond can hold on this path (ground part of the path condition).
+// Unknown/timeouts count as feasible; used only to prune alias forks.
+func (x *Exec) feasible(st *State, cond *Term) bool {
+	tb := x.tb
+	// syntactic exclusion first: cond demands t == c1 while the path already has t == c2
+	eqs := map[int]*Term{}
+	var collect func(t *Term, into func(lhs, c *Term))
+	collect = func(t *Term, into func(lhs, c *Term)) {
+		if t.op == "and" {
+			for _, a := range t.args {
+				collect(a, into)
+			}
+			return
+		}
+		if t.op == "=" && len(t.args) == 2 {
+			if t.args[1].IsConst() && !t.args[0].IsConst() {
+				into(t.args[0], t.args[1])
+			} else if t.args[0].IsConst() && !t.args[1].IsConst() {
+				into(t.args[1], t.args[0])
+			}
+		}
+	}
+	for _, a := range st.pc {
+		collect(a, func(l, c *Term) { eqs[l.id] = c })
+	}
+	excluded := false
+	collect(cond, func(l, c *Term) {
+		if c0, ok := eqs[l.id]; ok && c0 != c {
+			excluded = true
+		}
+	})
+	if excluded {
+		return false
+	}
+	var ground []*Term
+	for _, a := range st.pc {
+		ground = append(ground, tb.DropQuantifiers(a))
+	}
+	ground = append(ground, tb.DropQuantifiers(cond))
+	dir, err := os.MkdirTemp("", "govc-feas")
+	if err != nil {
+		return true
+	}
+	defer os.RemoveAll(dir)
+	r := Solve(tb.Script(ground, nil, false), SolveOpts{Timeout: 2, ScratchDir: dir})
+	return r.Status != "unsat"
 }
